@@ -55,7 +55,7 @@ func run(outlierPath bool) func(r vReq, handler func() error) vOut {
 		if outlierPath {
 			opts = append(opts, WithEnableOutlier(func(context.Context) bool { return true }))
 		}
-		ctx := transport.NewClientContext(context.Background(), fakeTransport{})
+		ctx := transport.NewClientContext(vCtx(), fakeTransport{})
 		_, err := SentinelClientMiddleware(opts...)(func(context.Context, interface{}) (interface{}, error) { return "resp", handler() })(ctx, "req")
 		return vOut{Err: err}
 	}
@@ -75,7 +75,7 @@ func instance(outlierPath bool) func(ext, fb bool) func(func() error) vOut {
 		}
 		mw := SentinelClientMiddleware(opts...)
 		return func(h func() error) vOut {
-			ctx := transport.NewClientContext(context.Background(), fakeTransport{})
+			ctx := transport.NewClientContext(vCtx(), fakeTransport{})
 			_, err := mw(func(context.Context, interface{}) (interface{}, error) { return "resp", h() })(ctx, "req")
 			return vOut{Err: err}
 		}
